@@ -74,6 +74,11 @@ MUTANTS = [
     ("dual1_edge_list", "bempp_cl/api/space/scalar_dual_spaces.py", "enumerate([[1, 5], [13, 17], [7, 11]])", "enumerate([[1, 5], [7, 11], [13, 17]])", 0, ["C10"]),
     ("bary_connectivity", "bempp_cl/api/grid/grid.py", "        new_elements[1, 6 * index + 2] = local_vertex_ids[2]", "        new_elements[1, 6 * index + 2] = local_vertex_ids[1]", 0, ["C10", "C11"]),
     ("refine_orientation", "bempp_cl/api/grid/grid.py", "new_elements[:, 4 * index + 3] = [vertex01, vertex12, vertex20]", "new_elements[:, 4 * index + 3] = [vertex01, vertex20, vertex12]", 0, ["C11", "C04"]),
+    ("geom_normal_left_handed", "bempp_cl/api/grid/grid.py", "normal_directions = _np.cross(jacobians[::2], jacobians[1::2], axis=1)", "normal_directions = _np.cross(jacobians[1::2], jacobians[::2], axis=1)", 0, ["C11"]),
+    ("geom_volume_factor", "bempp_cl/api/grid/grid.py", "volumes = 0.5 * normal_direction_norms", "volumes = normal_direction_norms", 0, ["C11"]),
+    ("geom_diameter_formula", "bempp_cl/api/grid/grid.py", "diameters = jac_vector_norms[::2] * jac_vector_norms[1::2] * diff_norms / normal_direction_norms", "diameters = jac_vector_norms[::2] * jac_vector_norms[1::2] / normal_direction_norms", 0, ["C11"]),
+    ("geom_jacobian_columns_swapped", "bempp_cl/api/grid/grid.py", "_np.tile([1, 2], self.number_of_elements)", "_np.tile([2, 1], self.number_of_elements)", 0, ["C11"]),
+    ("geom_inverse_not_inverted", "bempp_cl/api/grid/grid.py", "self.jacobians[index].dot(jac_transpose_jac_inv[index])", "self.jacobians[index].dot(jac_transpose_jac[index])", 0, ["C11"]),
     ("refine_midpoint_endpoints", "bempp_cl/api/grid/grid.py", "            self.vertices[:, self.edges[0, :]] + self.vertices[:, self.edges[1, :]]\n", "            self.vertices[:, self.edges[0, :]] + self.vertices[:, self.edges[0, :]]\n", 0, ["C11"]),
     ("union_even_permutation", "bempp_cl/api/grid/grid.py", "current_elements = grid.elements[[0, 2, 1], :]", "current_elements = grid.elements[[1, 2, 0], :]", 0, ["C11"]),
     ("union_offset_advanced_early", "bempp_cl/api/grid/grid.py", "        elements[:, element_offset : element_offset + nelements] = current_elements + vertex_offset\n        all_domain_indices[element_offset : element_offset + nelements] = domain_indices[index]\n        vertex_offset += nvertices\n", "        vertex_offset += nvertices\n        elements[:, element_offset : element_offset + nelements] = current_elements + vertex_offset\n        all_domain_indices[element_offset : element_offset + nelements] = domain_indices[index]\n", 0, ["C11"]),
@@ -175,6 +180,8 @@ EQUIVALENTS = [
      "        if dual_to_range.requires_dof_transformation:\n            tt = dual_to_range.dof_transformation.T\n            mat = tt @ mat\n\n        if domain.requires_dof_transformation:\n            mat = mat @ domain.dof_transformation\n", 0, ["C13"]),
     ("eq_fmm_select_spelling", "bempp_cl/api/fmm/fmm_assembler.py", "    if \"single\" in operator_descriptor.identifier:\n        return evaluate_single_layer\n    elif \"adjoint_double\" in operator_descriptor.identifier:\n        return evaluate_adjoint_double_layer\n    elif \"double\" in operator_descriptor.identifier:\n        return evaluate_double_layer",
      "    layer = operator_descriptor.identifier.split(\"_\")\n    if layer[-3] == \"single\":\n        return evaluate_single_layer\n    if layer[-4:-2] == [\"adjoint\", \"double\"] or \"adjoint\" in operator_descriptor.identifier:\n        return evaluate_adjoint_double_layer\n    if \"double\" in operator_descriptor.identifier:\n        return evaluate_double_layer", 0, ["C17"]),
+    ("eq_geom_spelling", "bempp_cl/api/grid/grid.py", "        volumes = 0.5 * normal_direction_norms\n\n        jacobian_diff = jacobians[::2] - jacobians[1::2]", "        volumes = normal_direction_norms / 2\n\n        jacobian_diff = jacobians[1::2] - jacobians[::2]", 0, ["C11"]),
+    ("eq_geom_centroid", "bempp_cl/api/grid/grid.py", "centroids = 1.0 / 3 * _np.sum(_np.reshape(element_vertices, (self.number_of_elements, 3, 3)), axis=1)", "centroids = _np.sum(element_vertices.reshape(self.number_of_elements, 3, 3), axis=1) / 3", 0, ["C11"]),
     ("eq_refine_rename", "bempp_cl/api/grid/grid.py", "            vertex01 = self.element_edges[0, index] + self.number_of_vertices\n            vertex20 = self.element_edges[1, index] + self.number_of_vertices\n            vertex12 = self.element_edges[2, index] + self.number_of_vertices\n\n            new_elements[:, 4 * index] = [vertex0, vertex01, vertex20]\n\n            new_elements[:, 4 * index + 1] = [vertex01, vertex1, vertex12]\n\n            new_elements[:, 4 * index + 2] = [vertex12, vertex2, vertex20]\n\n            new_elements[:, 4 * index + 3] = [vertex01, vertex12, vertex20]\n",
      "            nv = self.number_of_vertices\n            m_a = nv + self.element_edges[0, index]\n            m_b = nv + self.element_edges[1, index]\n            m_c = nv + self.element_edges[2, index]\n            new_elements[:, 3 + 4 * index] = [m_a, m_c, m_b]\n            new_elements[:, 4 * index + 2] = [m_c, vertex2, m_b]\n            new_elements[:, 1 + index * 4] = [m_a, vertex1, m_c]\n            new_elements[:, index * 4] = [vertex0, m_a, m_b]\n", 0, ["C11", "C04"]),
     ("eq_union_rename", "bempp_cl/api/grid/grid.py", "        vertices[:, vertex_offset : vertex_offset + nvertices] = grid.vertices\n        if swapped_normals[index]:\n            current_elements = grid.elements[[0, 2, 1], :]\n        else:\n            current_elements = grid.elements\n        elements[:, element_offset : element_offset + nelements] = current_elements + vertex_offset\n        all_domain_indices[element_offset : element_offset + nelements] = domain_indices[index]\n        vertex_offset += nvertices\n        element_offset += nelements\n",
